@@ -26,6 +26,7 @@ package supervisor
 
 //@ typeinv LocalSupervisor s
 //@   inv s.processMap != nil
+//@   inv forall k string :: has(s.processMap, k) ==> s.processMap[k].pid > 0
 
 // Exec: a process of the runtime domain is started once, recorded under its name, and gets exactly one waiter goroutine
 //@ func (*LocalSupervisor).Exec
@@ -42,6 +43,8 @@ package supervisor
 
 // kill: success only once the termination channel was seen closed; SIGKILL to the whole group; errors for a past deadline or an outlived one
 //@ func kill
+//@   requires p.pid > 0
+//@   ensures [the-signal-is-addressed-to-the-group-in-every-case] delta(SignalSent) == 1 ==> lastarg(SignalSent, 0) < 0
 //@   ensures [success-only-after-termination] r0 == nil ==> delta(TerminationSeen) == 1
 //@   ensures [already-terminated-needs-no-signal] delta(TerminationSeen) == 1 && delta(DeadlineAlreadyPast) + delta(DeadlineNotPast) == 0 ==> r0 == nil && delta(SignalSent) == 0
 //@   ensures [past-deadline-is-an-error-without-signal] delta(DeadlineAlreadyPast) == 1 ==> r0 != nil && delta(SignalSent) == 0
@@ -57,6 +60,7 @@ package supervisor
 // Terminate: SIGTERM to the group, best effort, never waits
 //@ func (*LocalSupervisor).Terminate
 //@   requires req != nil
+//@   ensures [the-signal-is-addressed-to-the-group-in-every-case] delta(SignalSent) == 1 ==> lastarg(SignalSent, 0) < 0
 //@   ensures [other-domains-are-a-no-op] req.Domain != "runtime" ==> r0 == nil && delta(SignalSent) == 0
 //@   ensures [unknown-name-is-an-error] req.Domain == "runtime" && !old(has(s.processMap, req.Name)) ==> r0 != nil && delta(SignalSent) == 0
 //@   ensures [sigterm-to-the-group-without-waiting] req.Domain == "runtime" && old(has(s.processMap, req.Name)) ==> r0 == nil && delta(SignalSent) == 1 && delta(TermSignalSent) == 1 && delta(GroupLookup) == 1 && (delta(GroupFound) == 1 && lastret(GroupLookup) >= 0 ==> lastarg(SignalSent, 0) == 0 - lastret(GroupLookup)) && delta(TerminationSeen) == 0 && delta(KillDeadlineHit) == 0
